@@ -85,7 +85,14 @@ def run(c):
     r = guarded(lambda: irr.simulate_npc_dist(cols, np.array(c["size"]), obs_ts=np.array(c["obs"], dtype=float), plus1=c["plus1"]))
     if r[0] != "ok":
         return {"ok": False, "err": list(r)}
-    return {"ok": True, "obs_npc": float(r[1]["obs_npc"]), "pvalue": float(r[1]["pvalue"]), "num_perm": int(r[1]["num_perm"])}
+    out = {"ok": True, "obs_npc": float(r[1]["obs_npc"]), "pvalue": float(r[1]["pvalue"]), "num_perm": int(r[1]["num_perm"])}
+    # the same call with the per-stratum p-values supplied instead of the observed statistics, and with neither
+    B = cols.shape[0]; pc = 1 if c["plus1"] else 0
+    pv = np.array([(np.sum(cols[:, j] >= c["obs"][j]) + pc) / (B + pc) for j in range(cols.shape[1])])
+    r2 = guarded(lambda: irr.simulate_npc_dist(cols, np.array(c["size"]), pvalues=pv, plus1=c["plus1"]))
+    out["via_pvalues"] = [r2[0], float(r2[1]["obs_npc"]), float(r2[1]["pvalue"])] if r2[0] == "ok" else list(r2)
+    out["neither"] = list(guarded(lambda: irr.simulate_npc_dist(cols, np.array(c["size"]), plus1=c["plus1"])))[:2]
+    return out
 
 
 def oracle(c, o):
@@ -131,6 +138,11 @@ def oracle(c, o):
     want = -sum(float(p) / math.sqrt(s) for p, s in zip(ps, c["size"]))
     if abs(o["obs_npc"] - want) > 1e-9 or o["num_perm"] != B:
         return {"why": f"obs_npc={o['obs_npc']} expected {want}", "cls": "irr:npcdist-formula"}
+    vp = o.get("via_pvalues")
+    if vp is not None and (vp[0] != "ok" or abs(vp[1] - want) > 1e-9 or abs(vp[2] - o["pvalue"]) > 1e-12):
+        return {"why": f"simulate_npc_dist with the per-stratum p-values supplied gives {vp}, with the observed statistics obs_npc={o['obs_npc']}, p={o['pvalue']}", "cls": "irr:npcdist-formula"}
+    if "neither" in o and o["neither"] != ["exc", "ValueError"]:
+        return {"why": f"simulate_npc_dist without obs_ts and without pvalues did not raise ValueError: {o['neither']}", "cls": "irr:npcdist-guard"}
     return None
 
 
